@@ -54,12 +54,31 @@ def forge_stream(ctx):
                 cfgs.append({"rs": rng.choice([3, 20]), "cache": "file", "sig": sig, "enc": enc, "comp": comp})
     if quick:
         cfgs = [c for c in cfgs if (c["sig"], c["enc"]) in (("minisign", ""), ("pgp", ""), ("minisign", "age"), ("pgp", "pgp"))]
-    jobs = [{"history": {"config": c, "blobs": [{"seed": 1, "len": 700}, {"seed": 2, "len": 10}, {"seed": 3, "len": 1300}], "obs": [], "calls": FORGE_HISTORY},
-             "struct": True, "maxflip": 40 if quick else 0, "flips": [] if quick else [-1], "seed": ctx.seed} for c in cfgs]
+    jobs = []
+    for c in cfgs:
+        hh = {"config": c, "blobs": [{"seed": 1, "len": 700}, {"seed": 2, "len": 10}, {"seed": 3, "len": 1300}], "obs": [], "calls": FORGE_HISTORY}
+        if quick:
+            jobs.append({"history": hh, "struct": True, "maxflip": 40, "flips": [], "seed": ctx.seed})
+        else:
+            # every byte of the tape, in chunks of 3000 positions per process (the tapes of this history are below 60000 bytes)
+            for k in range(0, 60000, 3000):
+                jobs.append({"history": hh, "struct": k == 0, "maxflip": 0, "flips": [-1], "from": k, "to": k + 3000, "seed": ctx.seed})
     jobs = streams.replay_override(ctx, "job", jobs)
-    with ThreadPoolExecutor(max_workers=3) as ex:
+    with ThreadPoolExecutor(max_workers=3 if quick else 8) as ex:
         res = list(ex.map(lambda j: run_cmd("forge", j, timeout=6000), jobs))
     data = [dict(job=j, out=o, rc=rc, err=e) for j, (o, rc, e) in zip(jobs, res)]
+    if not quick and not getattr(ctx, "replay", None):
+        # tapes longer than the chunked range: sweep the rest too
+        extra = []
+        for d in data:
+            tl = max([r.get("tape_len", 0) for r in d["out"]] + [0])
+            if d["job"].get("from") == 0 and tl > 60000:
+                for k in range(60000, tl, 3000):
+                    extra.append(dict(d["job"], struct=False, **{"from": k, "to": k + 3000}))
+        if extra:
+            with ThreadPoolExecutor(max_workers=8) as ex:
+                res2 = list(ex.map(lambda j: run_cmd("forge", j, timeout=6000), extra))
+            data += [dict(job=j, out=o, rc=rc, err=e) for j, (o, rc, e) in zip(extra, res2)]
     streams.cache_put(p, data)
     return data
 
